@@ -21,3 +21,5 @@ run $A/bytecode/packed_bits.py 's/^        self._cur_byte_idx = 0$/        self.
 run $A/engine.py 's/^            lobj.set_start_address(lobj.memory_zone.current_address)$/            if self._verbose > 5:\n                print("placing", lobj)\n            lobj.set_start_address(lobj.memory_zone.current_address)/' C02 Assembler "add a diagnostic print inside a block"
 run $A/preprocessor/condition_stack.py 's/^            self._mute_counter -= 1$/            self._mute_counter = self._mute_counter - 1/' C08 ConditionStack "x -= 1 written as x = x - 1"
 run $A/line_object/data_line.py 's/^            for b in value_bytes:$/            for one_byte in value_bytes:/; s/^                self._append_byte(b)$/                self._append_byte(one_byte)/' C11 DataLine.generate_bytes "rename a loop variable"
+run $A/engine.py 's/^        global_label_scope = self._model.global_label_scope$/        for _p in self._include_paths:\n            pass\n        global_label_scope = self._model.global_label_scope/' C04 Assembler "insert a new loop before the contracted loops of the engine"
+run $A/engine.py 's/^        global_label_scope = self._model.global_label_scope$/        for _p in self._include_paths:\n            pass\n        global_label_scope = self._model.global_label_scope/' C03 Assembler "insert a new loop before the contracted loops of the engine (image blocks)"
